@@ -189,9 +189,14 @@ def cases(draw):
                 return []
             if isinstance(lst, str):
                 lst = [lst]
-            k = draw(st.integers(0, 2))
+            k = draw(st.integers(0, 4))
             if k == 0:
                 return [','.join(lst)]
+            if k == 3:
+                # whitespace next to an inner comma: every name is stripped on its own, not the value as a whole
+                return [', '.join(lst + [lst[0]])]
+            if k == 4:
+                return [' ,\t'.join(lst + [lst[0]]) + ' ']
             if k == 1:
                 return [' %s ' % x for x in lst]
             return [',,'.join(lst) + ',', ' ' + lst[0]]
